@@ -2967,6 +2967,13 @@ class InterDifferingSerializer(InterVersionedFileRepository):
                 parent_ids.update(revision.parent_ids)
             parent_ids.difference_update(revision_ids)
             parent_ids.discard(_mod_revision.NULL_REVISION)
+            # Inventories this repository itself already holds (from an
+            # earlier batch or an earlier fetch) must not be added again: the
+            # copy would be computed against a different basis.
+            present = self.target.inventories.without_fallbacks().get_parent_map(
+                [(parent_id,) for parent_id in parent_ids]
+            )
+            parent_ids.difference_update(key[-1] for key in present)
             parent_map = self.source.get_parent_map(parent_ids)
             # we iterate over parent_map and not parent_ids because we don't
             # want to try copying any revision which is a ghost
